@@ -186,7 +186,9 @@ class SolveManager:
 
     def apply(self):
         """Applies all solves in the list."""
-        for solve in self.solves:
+        # a solve moves its surface and everything behind it: apply in surface
+        # order so that an upstream solve cannot undo a downstream one
+        for solve in sorted(self.solves, key=lambda solve: solve.surface_idx):
             solve.apply()
 
     def clear(self):
